@@ -187,6 +187,50 @@ func genApp() string {
 		handlers = append(handlers, "unrecognised:"+oneLine(prc[0][0]))
 	}
 
+	// every `return` inside an AnteHandle method of app/ante/*.go that neither calls next(...) nor returns a non-nil error
+	// expression: such a decorator ends the chain and ACCEPTS the transaction without running the decorators behind it
+	type early struct{ file, recv, text string }
+	var earlies []early
+	for path, f := range parseDir("app/ante") {
+		for _, d := range f.Decls {
+			fd, ok := d.(*ast.FuncDecl)
+			if !ok || fd.Body == nil || fd.Name.Name != "AnteHandle" {
+				continue
+			}
+			nextName := "next"
+			if fd.Type.Params != nil && len(fd.Type.Params.List) > 0 {
+				last := fd.Type.Params.List[len(fd.Type.Params.List)-1]
+				if len(last.Names) > 0 {
+					nextName = last.Names[len(last.Names)-1].Name
+				}
+			}
+			ast.Inspect(fd.Body, func(n ast.Node) bool {
+				if _, ok := n.(*ast.FuncLit); ok {
+					return false // returns of nested closures are not returns of AnteHandle
+				}
+				rs, ok := n.(*ast.ReturnStmt)
+				if !ok {
+					return true
+				}
+				if len(rs.Results) == 1 {
+					if c, ok := rs.Results[0].(*ast.CallExpr); ok {
+						if id, ok := c.Fun.(*ast.Ident); ok && id.Name == nextName {
+							return true
+						}
+					}
+				}
+				if len(rs.Results) == 2 {
+					if id, ok := rs.Results[1].(*ast.Ident); !ok || id.Name != "nil" {
+						return true // an error expression
+					}
+				}
+				earlies = append(earlies, early{path, recvName(fd), oneLine(rs)})
+				return true
+			})
+		}
+	}
+	sort.SliceStable(earlies, func(i, j int) bool { return earlies[i].file+earlies[i].recv+earlies[i].text < earlies[j].file+earlies[j].recv+earlies[j].text })
+
 	var sb strings.Builder
 	sb.WriteString("-- GENERATED by /verif/extract from app/app.go and app/ante/ante.go. Do not edit.\n")
 	sb.WriteString("namespace Sekai.Gen.App\n\n")
@@ -211,6 +255,14 @@ func genApp() string {
 		fmt.Fprintf(&sb, "  (%q, %q)%s\n", h.recv, h.arg, comma)
 	}
 	fmt.Fprintf(&sb, "]\n\n/-- constructors handed to NewProposalRouter, in order -/\ndef proposalHandlers : List String := %s\n", leanStrList(handlers))
-	sb.WriteString("\nend Sekai.Gen.App\n")
+	sb.WriteString("\n/-- returns of AnteHandle methods that accept without calling the next decorator: (file, decorator, statement) -/\ndef anteEarlyAccepts : List (String × String × String) := [\n")
+	for i, e := range earlies {
+		comma := ","
+		if i == len(earlies)-1 {
+			comma = ""
+		}
+		fmt.Fprintf(&sb, "  (%q, %q, %q)%s\n", e.file, e.recv, e.text, comma)
+	}
+	sb.WriteString("]\n\nend Sekai.Gen.App\n")
 	return sb.String()
 }
